@@ -100,6 +100,9 @@ Definition kind_of_invocation (l : list event) (i : nat) : option hookkind :=
 Definition is_veto_outcome (c : case_mut) : bool :=
   match c_out c with
   | Err TreeError | Err LoopError | Err TypeError => true
+  | Err AttributeError =>
+      (* LightNodeMixin's refusal of a parent that is not a node *)
+      match c_op c with SetParent _ _ => true | _ => false end
   | Err (HookExn i) =>
       match kind_of_invocation (log (snd (run_model c))) i with Some k => is_pre k | None => false end
   | Err RecursionError =>
